@@ -116,6 +116,39 @@ CLAIMED = {
             'after every step, shared objects keep their deep snapshot, '
             'final decisions equal for all role subsets',
             'z3; real files; reference = fresh enforcer loaded once'),
+    'C17': ('5/C17', 'descriptions and deprecation reasons as symbolic '
+            'strings (all strings up to the bound over an alphabet of '
+            'line breaks, #, quotes, colons, tabs, form feed, U+2028, plus '
+            'an over-long word) through the real formatting functions: a '
+            'z3 obligation over the produced text says every YAML line is '
+            'blank or a comment and the #"-lines are exactly the rule '
+            'lines; the rule lines load back to the defaults (YAML and '
+            'JSON)',
+            'z3; textwrap replaced by a nondeterministic contract stub for '
+            'symbolic text; string formatting through the import-time '
+            'rewrite, validated by witness replay'),
+    'C18': ('5/C18', 'a bounded family of operator files x default sets, '
+            'chosen by the solver, through the real convert / upgrade / '
+            'generator / list-redundant code; enforcer on the input vs '
+            'enforcer on the output compared per name by formula '
+            'equivalence over all role subsets; tools must complete',
+            'z3; stevedore lookups patched as in the repository tests; '
+            'file family bounds in the evidence'),
+    'C19': ('5/C19', 'the real checker on seeded policy files with a '
+            'symbolic token (role flags, scopes, is_admin, requested '
+            'rule): every printed verdict equals Enforcer.enforce on the '
+            'derived credentials/target; verdict list as documented',
+            'z3; JSON decoder of the access file returns the symbolic '
+            'token'),
+    'C20': ('5/C20', 'two real threads, the reloading (or the deciding) '
+            'thread suspended before every source line inside oslo_policy '
+            'in turn; the concurrent decision must equal the one under the '
+            'complete old or new policy for all role subsets; known '
+            'half-states of the pinned design are listed in '
+            'known_findings.json and reported as KNOWN-FINDING',
+            'z3 chooses the pre-emption point and the role subset; '
+            'sys.monitoring line events; two context switches; CPython '
+            'line granularity'),
 }
 
 PENDING_REASON = ('check not built yet in this session (work in progress; '
